@@ -1,5 +1,8 @@
 """C13 — runtime objects mirror the configuration graph and are initialised once."""
 FUNCS = []
 LEVEL = "other"
+LEVEL_TEXT = 'No contract is discharged for this property. Bounded stand-in only: instances of enumerated graphs through instance() and through the params-file route: one object per configuration, wiring, __post_init__ once after the fields, pre-tasks once, init tasks once after the pre-tasks.'
+TRUSTED = ['bounded only: nothing is claimed as proved', 'z3 5.1 / cvc5 1.0.3 / z3 4.8.12 and the VC generator pyvc (validated by seeded changes, pre-fix replays and the CPython replay of counterexamples; not verified)', 'Python semantics of DESIGN 2.3 (mathematical ints and reals, left-to-right evaluation, no monkey-patching, assert not compiled out)', 'heap typing: declared field/parameter classes are assumed on reads and checked on writes in the functions under contract', "contracts of externals and of callees outside the list are assumed; every ('ASSUME', ...) clause is listed in DESIGN section 11"]
+LEVEL_NOTE = 'bounded only: nothing is claimed as proved'
 from bounded.wire import run_c13
 BOUNDED = [("instances of enumerated graphs (direct and params-file routes)", run_c13)]
